@@ -8,6 +8,11 @@ Driver for C12.  One case = one history on one cgroup tree:
   batch <expired> <L> <len_0..len_{L-1}> (<node> <tgt>)*      tgt -2 = a string IsValid rejects
 Output per batch: `w <node> <value>` for every file write in order, then `st <v_0..v_{n-1}>`.
 The ResourceCache persists across the batches of a case.
+
+Second kind of case (harness `nonepolicy`, applyCPUSetWithNonePolicy on the BE cpuset dirs):
+  be <n> <parent_0..parent_{n-1}> <old_0..old_{n-1}>              (bitmasks)
+  none <expired> <cpus> <oldCPUSet> <m> <path_0..path_{m-1}>      paths = dirs in walk order
+Output per `none` line: `w <node> <value>` …, then `st …`.
 -/
 namespace KoordVerif.C12
 open KoordVerif.Proto
@@ -73,6 +78,21 @@ def runLines {α} (R : Run α) (n : Nat) : St α → List String → List String
       | none => ["bad-op"]
     | _ => ["bad-op"]
 
+def runNoneLines (n : Nat) : St Nat → List String → List String
+  | _, [] => []
+  | s, line :: rest =>
+    match toks line with
+    | "none" :: ts =>
+      match ints? ts with
+      | some (expired :: cpus :: old :: m :: ps) =>
+        if cpus < 0 || old < 0 || m < 0 || ps.length ≠ m.toNat || ps.any (fun p => p < 0 || p ≥ n) then ["bad-op"] else
+        let r := nonePolicy (expired ≠ 0) (ps.map Int.toNat) cpus.toNat old.toNat s
+        let vals := (List.range n).map r.1.files
+        let s' : St Nat := { files := listFn 0 vals, cache := listFn none ((List.range n).map r.1.cache), skip := [] }
+        r.2.map (fun w => s!"w {w.1} {w.2}") ++ ["st " ++ showNats vals] ++ runNoneLines n s' rest
+      | _ => ["bad-op"]
+    | _ => ["bad-op"]
+
 def startWith {α} (R : Run α) (n : Nat) (olds : List Int) (rest : List String) : List String :=
   match olds.mapM R.ofInt with
   | some vs => runLines R n { files := listFn R.dflt vs, cache := fun _ => none, skip := [] } rest
@@ -83,6 +103,17 @@ def runCase (lines : List String) : List String :=
   | [] => []
   | first :: rest =>
     match toks first with
+    | "be" :: ts =>
+      match nats? ts with
+      | some (n :: vals) =>
+        if vals.length ≠ 2 * n then ["bad-op"] else
+        runNoneLines n { files := listFn 0 (vals.drop n), cache := fun _ => none, skip := [] } rest
+      | _ => match ints? ts with
+        | some (n :: vals) =>
+          -- parents use -1 for the root
+          if n < 0 || vals.length ≠ 2 * n.toNat || (vals.drop n.toNat).any (· < 0) then ["bad-op"] else
+          runNoneLines n.toNat { files := listFn 0 ((vals.drop n.toNat).map Int.toNat), cache := fun _ => none, skip := [] } rest
+        | _ => ["bad-op"]
     | "tree" :: ts =>
       match ints? ts with
       | some (res :: v2 :: n :: vals) =>
